@@ -10,7 +10,7 @@ from .. import symtrace as st, common
 from ..gen_lean import Def
 from ..runner import Corr, Failure
 
-LEAN_MODULES = ['SvgVerif.Props.C04', 'SvgVerif.Props.C04Param']
+LEAN_MODULES = ['SvgVerif.Props.C04', 'SvgVerif.Props.C04Param', 'SvgVerif.Props.C04RoundTrip']
 ARGS = ['theta', 'delta', 'rx', 'ry', 'cphi', 'sphi', 'rot', 'cx', 'cy', 'pi', 't']
 
 
